@@ -33,7 +33,7 @@ REPORT = [['-L'], ['-l'], ['-OLIST', 'out.lst'], ['-u', '-L'], ['-C', '-L'], ['-
           ['-LISTRADIX', '2', '-L'], ['-LISTRADIX', '8', '-L'], ['-LISTRADIX', '10', '-L'], ['-LISTRADIX', '36', '-L'], ['-P'], ['-M'], ['-h', '-L'], ['-SPLITBYTE', '.', '-L'],
           ['-u'], ['-C'], ['-s'], ['-I'], ['-t', '255']]
 ENVDEV = ['carrier:ASCMD', 'carrier:keyfile', 'carrier:keyfile-nonl', 'carrier:keyfile-oneline', 'carrier:keyfile-longline', 'cwd:other', 'opath', 'lang:de_DE', 'lang:en_US', 'LANG:de_DE.UTF-8', 'noq',
-          'ipath:add-remove', 'ipath:list-form']    # an include directory added and taken away again; the directories given as one list
+          'ipath:add-remove', 'ipath:list-form', 'opath+olist-cleared']    # an include directory added and taken away again; the directories given as one list
 NO_Q_OK = True
 
 GEN = {
@@ -53,7 +53,7 @@ GEN = {
     # a macro library found only through -i, then a macro call carrying a label the macro does not consume
     'g_pmac': '\tcpu 6502\n\torg $8000\n\tinclude "macros.inc"\nreset:\tinitsp $ff\n\tifexist "nosuchfile.inc"\n\tnop\n\tendif\nagain:\tinitsp $fe\n\trts\n',
 }
-GENFILES = {'g_manyinc': {'g_manyinc.inc': '\tnop\n'}, 'g_pmac': {'lib/macros.inc': 'initsp\tmacro val\n\tldx #val\n\ttxs\n\tendm\n'}}
+GENFILES = {'g_manyinc': {'g_manyinc.inc': '\tnop\n'}, 'g_pmac': {'lib/macros.inc': 'initsp\tmacro {EXPORT},val\n\tldx #val\n\ttxs\n\tendm\n'}}       # (exported: written to the -M file when that is asked for)
 
 
 def sources():
@@ -136,6 +136,8 @@ def runcfg(t, devl):
             cwd = core.workdir()
             src = 'src/' + t + '.asm'
             out = 'src/' + t + '.p'
+        elif v == 'opath+olist-cleared':
+            out = 'elsewhere.p'       # -o together with a listing name that is set and taken back again
         elif v == 'opath':
             out = 'elsewhere.p'
         elif v.startswith('lang:'):
@@ -152,6 +154,8 @@ def runcfg(t, devl):
         allopts = flags_of(t) + quiet + ['-i', corpus.incdir() + ':/nonexistent/verif-junk']
     if ('env', 'opath') in [tuple(x) for x in devl]:
         allopts += ['-o', out]
+    if ('env', 'opath+olist-cleared') in [tuple(x) for x in devl]:
+        allopts += ['-o', out, '-OLIST', 'all.lst', '+OLIST', '-q']
     allopts += opts
     # the carrier transports EVERY option (code-affecting ones included): the place an option is given must not matter
     if carrier == 'argv':
